@@ -1,29 +1,39 @@
 (* C16 -- a failing FFI co-process is contained by the VM.
    Only property theorems here.  Model: NV.Proto.CopClient (vm_ffi_cop_start / cop_is_alive / vm_ffi_call_cop /
    vm_ffi_cop_stop and the run loop of nano_vm over explicit OS rules; the peer is an arbitrary script of deliver / close stdin /
-   close stdout / exit / killed actions per protocol step).  NV.gen.Signals is regenerated from the clang AST of each main.
+   close stdout / exit / killed actions per protocol step).  NV.gen.Signals is regenerated from the clang AST of the sources;
+   the reply decoder is CopCodec.deser_a (cop_deserialize_value of the current sources, any allocator limit).
    Trusted: the OS rules stated at the top of CopClient.v; SIGTERM terminates the co-process. *)
 From Coq Require Import NArith List Bool.
-From NV Require Import Base.Bytes gen.CopConst gen.Signals Proto.CopCodec Proto.CopClient Proto.CopClientProofs.
+From NV Require Import Base.Bytes gen.CopConst gen.Signals Proto.CopCodec Proto.CopCodecProofs Proto.CopClient Proto.CopClientProofs.
 Import ListNotations.
 Local Open Scope N_scope.
 
-(* one extern call, SIGPIPE ignored, reply decoder that stays inside its buffer: for EVERY peer script the call returns
+(* the two facts about the real code the containment rests on *)
+Theorem C16_nano_vm_ignores_sigpipe : nano_vm_ignores_sigpipe = true.
+Proof. reflexivity. Qed.
+Print Assumptions C16_nano_vm_ignores_sigpipe.
+
+Theorem C16_reply_decoder_safe : forall amax, safe_dec (deser_a amax).
+Proof. exact dec_real_safe. Qed.
+Print Assumptions C16_reply_decoder_safe.
+
+(* one extern call of the real client (SIGPIPE ignored, real decoder with any allocator): for EVERY peer script the call returns
    Ok / in-process fallback / Err in a well-formed state (cop_pid names exactly one unreaped child, or none with both
    descriptors closed; every forgotten child reaped) -- the only other possibility is a VM blocked in a read while the peer
    keeps its stdout open without delivering (hang_ok: the current child exists and its write end is open) *)
-Theorem C16_call_contained : forall dec j req v w,
-  sigign w = true -> safe_dec dec -> req <> ReqOverrun -> inv v w ->
-  match call_cop dec j req v w with
+Theorem C16_call_contained : forall amax j req v w,
+  sigign w = true -> req <> ReqOverrun -> inv v w ->
+  match call_cop (deser_a amax) j req v w with
   | Go _ v' w' => inv v' w' /\ sigign w' = true
   | Stop (FHang _) w' => hang_ok w'
   | Stop _ _ => False
   end.
-Proof. exact call_contained. Qed.
+Proof. exact call_contained_real. Qed.
 Print Assumptions C16_call_contained.
 
 (* in general (any SIGPIPE disposition, any decoder): a call can only end the VM by SIGPIPE-while-writing (only when SIGPIPE
-   is not ignored), by an out-of-bounds read of the reply decoder, or by blocking on a silent peer *)
+   is not ignored), by an out-of-bounds access of the reply decoder, or by blocking on a silent peer *)
 Theorem C16_call_outcomes : forall dec j req v w, inv v w -> call_post dec req w (call_cop dec j req v w).
 Proof. exact call_cop_spec. Qed.
 Print Assumptions C16_call_outcomes.
@@ -35,8 +45,21 @@ Theorem C16_no_orphan : forall v w, sigign w = true -> inv v w ->
 Proof. exact no_orphan. Qed.
 Print Assumptions C16_no_orphan.
 
-(* a whole run (any number of extern calls, any scripts for the first and every relaunched co-process): exit status 0 or 1
-   with every child reaped and none running -- or blocked on a silent peer; never a fatal signal *)
+(* nano_vm_contained: a whole run of the real nano_vm --isolate-ffi (disposition as generated from the sources, real decoder,
+   any number of extern calls, any scripts for the first and every relaunched co-process) ends with exit status 0 or 1, every
+   child reaped and none running -- or blocked on a silent peer; never a fatal signal *)
+Theorem C16_nano_vm_contained : forall amax scripts reqs,
+  no_overrun reqs ->
+  let o := run (deser_a amax) nano_vm_ignores_sigpipe scripts reqs in
+  match o_status o with
+  | SExit0 | SExit1 => has_pid (o_vm o) = false /\ all_reaped (o_world o) = true /\ orphans (o_world o) = false /\ wfb (o_vm o) (o_world o) = true
+  | SHang _ => hang_ok (o_world o)
+  | SKilled _ | SCrash => False
+  end.
+Proof. exact run_contained_real. Qed.
+Print Assumptions C16_nano_vm_contained.
+
+(* the same for an arbitrary bounds-safe decoder *)
 Theorem C16_run_contained : forall dec scripts reqs,
   safe_dec dec -> no_overrun reqs ->
   let o := run dec true scripts reqs in
@@ -52,57 +75,45 @@ Theorem C16_wf_decidable : forall v w, wfb v w = true <-> inv v w.
 Proof. exact wfb_inv. Qed.
 Print Assumptions C16_wf_decidable.
 
-(* ---- the two hypotheses above are NOT met by the unchanged code:
-
-   (1) SIGPIPE.  Signals.nano_vm_ignores_sigpipe is generated from the sources.  While it is false the containment claim
-   for the real nano_vm is REFUTED by a witness script (peer says READY with its stdin closed and stays alive): the VM is
-   killed writing the first request and the peer is left running.  Once the generated constant is true the claim is the
-   theorem above.  The statement below is the one that holds for whichever value the translator produced. *)
-Theorem C16_nano_vm_contained_or_refuted :
-  if nano_vm_ignores_sigpipe
-  then forall dec scripts reqs, safe_dec dec -> no_overrun reqs ->
-         match o_status (run dec nano_vm_ignores_sigpipe scripts reqs) with SKilled _ | SCrash => False | _ => True end
-  else let o := run dec_real nano_vm_ignores_sigpipe [script_close_stdin] [ReqOk []] in
-       o_status o = SKilled (LReq 1) /\ orphans (o_world o) = true.
-Proof.
-  unfold nano_vm_ignores_sigpipe.
-  first [ exact sigpipe_default_kills
-        | intros dec scripts reqs Sd Nr; pose proof (run_contained dec scripts reqs Sd Nr) as R; cbv zeta in R;
-          destruct (o_status (run dec true scripts reqs)); auto ].
-Qed.
-Print Assumptions C16_nano_vm_contained_or_refuted.
-
-Theorem C16_sigpipe_default_kills_in_stop_refuted :
-  o_status (run dec_real false [script_exit_before_reply] [ReqOk []]) = SKilled LShutdown.
-Proof. exact sigpipe_default_kills_in_stop. Qed.
-Print Assumptions C16_sigpipe_default_kills_in_stop_refuted.
-
-Theorem C16_sigpipe_ignored_contains_witness :
-  let o := run dec_real true [script_close_stdin] [ReqOk []] in
-  o_status o = SExit1 /\ o_err o = Some EReqDied /\ orphans (o_world o) = false /\ all_reaped (o_world o) = true.
-Proof. exact sigpipe_ignored_contains. Qed.
-Print Assumptions C16_sigpipe_ignored_contains_witness.
-
 (* a stop can be cut short only by SIGPIPE *)
 Theorem C16_stop_killed_only_by_sigpipe : forall v w f w', inv v w -> cop_stop v w = Stop f w' -> f = FKilled LShutdown /\ sigign w = false.
 Proof. exact stop_killed_only_by_sigpipe. Qed.
 Print Assumptions C16_stop_killed_only_by_sigpipe.
 
-(* (2) the reply decoder.  safe_dec is REFUTED for the real cop_deserialize_value (model CopCodec.deser_a): a well-framed
-   FFI_RESULT whose string length is 0xffffffff passes the uint32 bounds check and is read out of bounds (SIGSEGV), also with
-   SIGPIPE ignored; and a huge array count crashes when calloc refuses it. *)
-Theorem C16_reply_decoder_refuted :
-  o_status (run dec_real true [script_str_wrap] [ReqOk []]) = SCrash /\ ~ safe_dec dec_real.
-Proof. exact real_decoder_crashes. Qed.
-Print Assumptions C16_reply_decoder_refuted.
+(* why the disposition is necessary (statements about the model with sigign = false, i.e. the code before commit f68d9af;
+   the witnesses stay in the fault matrix): READY with stdin closed => killed writing the request, peer left running;
+   exit before the reply => killed by the SHUTDOWN of vm_ffi_cop_stop.  With the disposition: exit 1, peer reaped. *)
+Theorem C16_default_disposition_would_kill :
+  (let o := run dec_real false [script_close_stdin] [ReqOk []] in
+   o_status o = SKilled (LReq 1) /\ orphans (o_world o) = true) /\
+  o_status (run dec_real false [script_exit_before_reply] [ReqOk []]) = SKilled LShutdown.
+Proof. split; [exact sigpipe_default_kills|exact sigpipe_default_kills_in_stop]. Qed.
+Print Assumptions C16_default_disposition_would_kill.
 
-Theorem C16_reply_decoder_alloc_refuted :
-  deser_a 268435455 [TAG_ARRAY; 1; 255; 255; 255; 255; TAG_VOID] = DOob.
-Proof. exact real_decoder_crashes_on_alloc_failure. Qed.
-Print Assumptions C16_reply_decoder_alloc_refuted.
+Theorem C16_witnesses_contained :
+  (let o := run dec_real true [script_close_stdin] [ReqOk []] in
+   o_status o = SExit1 /\ o_err o = Some EReqDied /\ orphans (o_world o) = false /\ all_reaped (o_world o) = true) /\
+  (let o := run dec_real true [script_exit_before_reply] [ReqOk []] in
+   o_status o = SExit1 /\ o_err o = Some ERespDied /\ all_reaped (o_world o) = true).
+Proof. split; [exact sigpipe_ignored_contains|exact exit_before_reply_contained]. Qed.
+Print Assumptions C16_witnesses_contained.
+
+(* the replies that used to crash the decoder (string length 0xffffffff, array count 0xffffffff, count larger than the
+   payload, 300 nested arrays) now end in "failed to deserialize result", exit 1, peer reaped *)
+Theorem C16_hostile_replies_contained :
+  forallb (fun p => match run dec_real true [script_reply p] [ReqOk []] with
+                    | mkOut SExit1 (Some EDeser) 0 _ w => all_reaped w
+                    | _ => false end)
+    [ [TAG_STRING; 255; 255; 255; 255];
+      [TAG_STRING; 251; 255; 255; 255; 97; 98];
+      [TAG_ARRAY; 1; 255; 255; 255; 255; TAG_VOID];
+      [TAG_ARRAY; 1; 2; 0; 0; 0; TAG_VOID];
+      flat_map (fun _ => [TAG_ARRAY; 1; 1; 0; 0; 0]) (repeat tt 300) ++ [TAG_VOID] ] = true.
+Proof. exact hostile_replies_contained. Qed.
+Print Assumptions C16_hostile_replies_contained.
 
 (* non-vacuity: the hypotheses of the containment theorems are satisfiable (initial state is well-formed; a healthy script
-   runs two calls to completion; a decoder that never reads out of bounds exists) *)
+   runs two calls to completion) *)
 Definition healthy : script :=
   [(LReady, [ADeliver msg_ready]);
    (LHdr 1, [ADeliver (frame COP_MSG_FFI_RESULT (ser (VInt 1)))]);
@@ -111,6 +122,5 @@ Definition healthy : script :=
 Example C16_nonvacuous :
   wfb vm_none (init_world [healthy] true) = true /\
   (let o := run dec_real true [healthy] [ReqOk []; ReqOk []] in
-   o_status o = SExit0 /\ o_done o = 2 /\ all_reaped (o_world o) = true) /\
-  safe_dec (fun _ => DFail).
-Proof. split; [vm_compute; reflexivity|]. split; [vm_compute; repeat split; reflexivity|]. intros p; discriminate. Qed.
+   o_status o = SExit0 /\ o_done o = 2 /\ all_reaped (o_world o) = true).
+Proof. split; [vm_compute; reflexivity|]. vm_compute; repeat split; reflexivity. Qed.
